@@ -5,7 +5,7 @@ CONSTANTS
   MaxCmds = 100000
   MaxFaults = 100000
   MaxNs = 100000
-  MaxPerPool = 8
+  MaxPerPool = 12
   FOps = {}
 INVARIANTS TypeOK C18_TxStatementOnTxMaster C18_OneConnPerSlice C18_EndReachesExactlyTx C18_ReleasedAfterEnd
   C19_NoLeak C19_NoDangling C19_NothingHeldOutsideTx C19_NoOpenTxInPool C19_EndClean
